@@ -106,7 +106,7 @@ func raceConc(f []string) bool {
 		return false
 	}
 	for rep := 0; rep < 2; rep++ {
-		runHistory(u, roots, 1, 4)
+		runHistory(u, roots, 1, 8)
 	}
 	return true
 }
@@ -151,7 +151,7 @@ func raceSample(c *fw.Ctx, jobs []job) {
 	}
 	// sample: every witness/testdata universe plus an even spread of the generated ones
 	var recs []string
-	want := 1500
+	want := 2500
 	step := len(jobs)/want + 1
 	for i, j := range jobs {
 		if strings.HasPrefix(j.src, "gen-") && i%step != 0 {
@@ -204,6 +204,10 @@ func raceSample(c *fw.Ctx, jobs []job) {
 				bi, _ := c.Op("C05 race " + recs[last])
 				_ = bi
 			}
+		} else if !time.Now().Before(deadline) {
+			c.Note(fmt.Sprintf("race run: time budget reached at record %d of %d", last, len(recs)))
+			from = last
+			break
 		} else {
 			c.Note(fmt.Sprintf("race batch stopped at record %d without a race report: %v %s", last, err, lastBytes(eb.String(), 300)))
 		}
